@@ -578,6 +578,43 @@ def gen_correspondence(ctx, rules, rng):
         if e != g:
             ctx.mismatch("rrsgen.parms / rrsgen.datevalue (translated _parse_date_value vs the statements / the method itself)", q, e, g)
     ctx.traces += len(reqs); ctx.count("gen_parms_cases", len(reqs))
+    # 2b. the line dispatch loop of _parse_rfc: the `for line in lines:` statement itself, with _parse_date_value stubbed to return one
+    #     record per ,-separated value after the real parameter check
+    if loc.get("dispatch") is not None:
+        import dateutil.rrule as RR
+        c_disp = frag([loc["dispatch"]])
+        class Stub(object):
+            def _parse_date_value(self, value, parms, names, ignoretz, tzids, tzinfos):
+                RR.rrulestr._parse_date_value("19970902T090000", parms, {}, False, lambda n: None, None)       # the parameter check (ValueError)
+                return [(v, tuple(parms)) for v in value.split(",")]
+        extra = ["RDATE:19970910T090000,19970911T090000", "EXDATE:19970902T090000", "EXRULE:FREQ=WEEKLY;COUNT=2", "RRULE:FREQ=YEARLY", "RDATE;VALUE=DATE-TIME:1",
+                 "RDATE;VALUE=DATE:1", "EXDATE;VALUE=DATE;TZID=X:1,2", "EXDATE;FOO=1:1", "DTSTART;VALUE=DATE-TIME;VALUE=DATE:1", "DTSTART:1,2", "DTSTART;TZID=A;TZID=B:1",
+                 "FOO:1", "RRULE;X=1:FREQ=DAILY", "EXRULE;X:1", ";:", ":", "", "A", "RRULE", "DTSTART", "X;Y", "DTSTART:", ";RRULE:1", "RRULE:A:B", "EXDATE;:1"]
+        reqs, exp = [], []
+        for i in range(ctx.budget(200, 2000)):
+            r_, s_, _ = rules[i % len(rules)] if rules else (None, "", None)
+            lines = s_.upper().split("\n") + rng.sample(extra, rng.randint(0, 3))
+            rng.shuffle(lines)
+            if rng.random() < 0.3 and lines:
+                k = rng.randrange(len(lines)); j = rng.randint(0, len(lines[k]))
+                lines[k] = lines[k][:j] + rng.choice(list(";:,=") + ["TZID=Q;", "VALUE=DATE;"]) + lines[k][j:]
+            if any(("," in l or "[" in l or "]" in l or not all(ord(c) < 128 for c in l)) and False for l in lines):
+                continue
+            ns = base_ns(); ns.update(lines=list(lines), rrulevals=[], rdatevals=[], exrulevals=[], exdatevals=[], dtstart=None, self=Stub(),
+                                      TZID_NAMES={}, ignoretz=False, tzids=None, tzinfos=None)
+            def hl(xs): return "[" + ",".join(hexs(x) for x in xs) + "]"
+            def dv(d): return hexs(d[0]) + "|" + hexs(";".join(d[1]))
+            try:
+                exec(c_disp, ns)
+                e = "ok %s %s %s [%s] %s" % (hl(ns["rrulevals"]), hl(ns["rdatevals"]), hl(ns["exrulevals"]), ",".join(dv(d) for d in ns["exdatevals"]),
+                                             "-" if ns["dtstart"] is None else hexs(",".join(v for v, _ in [ns["dtstart"]])) + "|" + hexs(";".join(ns["dtstart"][1])))
+            except Exception as ex:
+                e = "err " + exc_kind(ex)
+            reqs.append("rrsgen.dispatch %s" % hl(lines)); exp.append(e)
+        for q, e, g in zip(reqs, exp, ctx.driver(reqs)):
+            if e != g:
+                ctx.mismatch("rrsgen.dispatch (translated line dispatch loop of _parse_rfc vs the statement itself)", q, e, g)
+        ctx.traces += len(reqs); ctx.count("gen_dispatch_cases", len(reqs))
     # 3. attaching the zone: all nine combinations
     zones = {"-": None, "t": datetime.timezone.utc, "lc" + hexs("X"): datetime.timezone(datetime.timedelta(hours=1), "X")}
     back = {id(v): k for k, v in zones.items()}
